@@ -3,7 +3,7 @@
     our own. *)
 From Coq Require Import ZArith List.
 From Copia Require Import Model.Checksum Model.Delta.
-From Copia Require Model.Hub Model.HubExec Model.HubSeq.
+From Copia Require Model.Hub Model.HubExec Model.HubSeq Model.Bisync Model.BisyncExec.
 From Copia Require Import Model.Bincode Model.Protocol.
 Import ListNotations.
 Require Extraction.
@@ -32,6 +32,7 @@ Extraction "model.ml"
   spec_digest_exec sums
   m_signature m_delta m_patch m_greedy lits out_len
   HubExec.hub_exec HubExec.wire_exec HubSeq.refused HubExec.sync_exec
+  BisyncExec.bi_hist BisyncExec.bi_init BisyncExec.bi_dry
   header_encode_ck header_decode read_from write_message read_message
   encode_message encode_signature encode_delta decode_message decode_signature decode_delta
   run_delta_top run_patch_top mt_code.
